@@ -25,3 +25,24 @@ Proof. vm_compute. reflexivity. Qed.
 
 Lemma try_map_keeps_lock : try_map_wf AssetReadGuard_try_map = true.
 Proof. vm_compute. reflexivity. Qed.
+
+(* the lock-free accessor is for entries that can never be rewritten: it refuses a reloadable one
+   before it dereferences the cell *)
+Definition static_get_wf (f : fn_def) : bool :=
+  match fn_body f with
+  | [EIf (EMethod (EField (EPath ["self"]) "dynamic") "is_some" []) [EMacro "panic" _] None;
+     EBlock [ERef (EUnary "*" (EMethod (EField (EPath ["self"]) "value") "get" []))]] => true
+  | _ => false
+  end.
+Lemma static_get_refuses_reloadable : static_get_wf EntryStorage_get = true.
+Proof. vm_compute. reflexivity. Qed.
+
+(* copied / cloned read through a guard *)
+Definition via_read (f : fn_def) : bool :=
+  match fn_body f with
+  | [EUnary "*" (EMethod (EPath ["self"]) "read" [])] => true
+  | [EMethod (EMethod (EPath ["self"]) "read" []) "clone" []] => true
+  | _ => false
+  end.
+Lemma copies_go_through_a_guard : via_read Handle_copied = true /\ via_read Handle_cloned = true.
+Proof. vm_compute. split; reflexivity. Qed.
